@@ -503,6 +503,8 @@ def explore(
     max_depth: int = 400,
     on_state: Optional[Callable[[World, List[Any]], None]] = None,
     gc_every: int = 400,
+    stop_prefix: Optional[str] = None,
+    time_budget: Optional[float] = None,
 ) -> ExploreResult:
     """Depth-first exploration of all event orderings from the initial state.
 
@@ -587,7 +589,26 @@ def explore(
         # explicit DFS stack of (history, dev, menu); worlds are rebuilt by replay,
         # except that the last child of a node reuses the node's own world.
         work: List[Tuple[List[Any], int, List[Any], Optional[World]]] = [([], 0, menu0, root)]
+        import time as _time
+
+        t_start = _time.time()
+
+        def should_stop() -> bool:
+            # a scenario that already produced a violation of the property under check has
+            # failed; a time budget that runs out is reported as a cap (never as coverage)
+            if stop_prefix and any(k.startswith(stop_prefix) for k in res.violations):
+                return True
+            if time_budget is not None and _time.time() - t_start > time_budget:
+                res.capped = True
+                return True
+            return False
+
         while work:
+            if should_stop():
+                for (_h, _d, _m, _w) in work:
+                    if _w is not None:
+                        _w.teardown()
+                break
             hist, dev, menu, w_here = work.pop()
             steps: List[Any] = [("e", ev) for ev in menu]
             if dev < level:
